@@ -1075,3 +1075,346 @@ func runR144(c *Ctx) {
 		})
 	}
 }
+
+// ---------- R145 ----------
+
+func init() {
+	register(&Rule{ID: "R145", Name: "VALUE-SET-COMPLETE", Floor: 1,
+		Text: "in internal/ecolumn a loop over a values table ([]string) that collects the matching values into a bitset (like / ilike / in on enum columns: the rows are then selected by their code's membership) visits every value: it is left only when the range is exhausted, or by returning an error. Several values can satisfy one predicate - case variants under ilike, any regular expression - so stopping at the first hit drops the rows that hold the others, and string and enum columns with the same content disagree",
+		Run:  runR145})
+}
+
+func runR145(c *Ctx) {
+	p := c.P
+	for _, fn := range p.FuncsIn("internal/ecolumn") {
+		fnm := fname(fn)
+		for _, li := range loopsOf(fn) {
+			if li.base == nil {
+				continue
+			}
+			sl, ok := li.base.Type().Underlying().(*types.Slice)
+			if !ok {
+				continue
+			}
+			if b, ok := sl.Elem().Underlying().(*types.Basic); !ok || b.Kind() != types.String {
+				continue
+			}
+			// does the body set bits?
+			sets := false
+			for _, b := range fn.Blocks {
+				if !inLoop(li, b) {
+					continue
+				}
+				for _, in := range b.Instrs {
+					call, ok := in.(*ssa.Call)
+					if !ok {
+						continue
+					}
+					if r := recvOf(call); r != nil {
+						if n, ok := deref(r.Type()).(*types.Named); ok && n.Obj().Name() == "bitset" && n.Obj().Pkg() == fn.Pkg.Pkg {
+							sets = true
+						}
+					}
+				}
+			}
+			if !sets {
+				continue
+			}
+			key := fnm + "|loop over the values"
+			bad := ""
+			for _, b := range fn.Blocks {
+				if !inLoop(li, b) || b == li.header {
+					continue
+				}
+				for _, s := range b.Succs {
+					if !inLoop(li, s) {
+						bad = p.pos(b.Instrs[len(b.Instrs)-1].Pos())
+						if bad == "-" && len(s.Instrs) > 0 {
+							bad = p.pos(s.Instrs[0].Pos())
+						}
+					}
+				}
+				if ret, ok := b.Instrs[len(b.Instrs)-1].(*ssa.Return); ok {
+					if errResultIndex(fn.Signature) < 0 || mayReportSuccess(ret) {
+						bad = p.instrPos(ret)
+					}
+				}
+			}
+			if bad != "" {
+				c.bad(key, p.pos(li.header.Instrs[0].Pos()), fmt.Sprintf("the loop that collects the matching enum values is left early at %s: values after the first hit are never tested, the rows that hold them are not selected", bad))
+			} else {
+				c.ok(key, p.pos(li.header.Instrs[0].Pos()), "every value is tested; the loop ends only with the range (or an error)")
+			}
+		}
+	}
+}
+
+// ---------- R146 ----------
+
+func init() {
+	register(&Rule{ID: "R146", Name: "PATTERN-VS-VALUE", Floor: 3,
+		Text: "an enum column answers two kinds of single-string filters: comparisons with a *value* (=, !=, <, ... and in), for which a strict enum rejects an undeclared constant, and *patterns* (like, ilike), which are not values and are matched against every declared value. In internal/ecolumn the table whose functions take (pattern string, values []string) and whose use site makes no strictness test (a) holds only pattern filters - every function filed in it reaches the matcher constructor - so no value comparison slips past the declared-values check by being filed there, and (b) its use site stays free of the strict flag: a literal pattern that is not a declared value selects nothing, it is not an error (string columns and derived enums answer the same)",
+		Run:  runR146})
+}
+
+func runR146(c *Ctx) {
+	p := c.P
+	ctor := p.anchorMatcherCtor()
+	if ctor == nil {
+		c.undecided("internal/strings.NewMatcher", "-", "not found")
+		return
+	}
+	var reaches func(f *ssa.Function, d int) bool
+	reaches = func(f *ssa.Function, d int) bool {
+		if f == nil || f.Blocks == nil || d > 3 {
+			return false
+		}
+		found := false
+		eachInstr(f, func(in ssa.Instruction) {
+			if call, ok := in.(*ssa.Call); ok && !found {
+				g := call.Call.StaticCallee()
+				if g == ctor || g != nil && g != f && g.Pkg == f.Pkg && reaches(g, d+1) {
+					found = true
+				}
+			}
+		})
+		return found
+	}
+	n := 0
+	for _, fn := range p.FuncsIn("internal/ecolumn") {
+		eachInstr(fn, func(in ssa.Instruction) {
+			lk, ok := in.(*ssa.Lookup)
+			if !ok || !lk.CommaOk {
+				return
+			}
+			ld, ok := lk.X.(*ssa.UnOp)
+			if !ok || ld.Op != token.MUL {
+				return
+			}
+			g, ok := ld.X.(*ssa.Global)
+			if !ok {
+				return
+			}
+			mt, ok := g.Type().(*types.Pointer).Elem().Underlying().(*types.Map)
+			if !ok {
+				return
+			}
+			sig, ok := mt.Elem().Underlying().(*types.Signature)
+			if !ok || sig.Params().Len() != 2 || errResultIndex(sig) < 0 {
+				return
+			}
+			if b, ok := sig.Params().At(0).Type().Underlying().(*types.Basic); !ok || b.Kind() != types.String {
+				return
+			}
+			// the ok region of this lookup
+			var okIf *ssa.If
+			for _, r := range *lk.Referrers() {
+				if ex, ok := r.(*ssa.Extract); ok && ex.Index == 1 {
+					for _, r2 := range *ex.Referrers() {
+						if iff, ok := r2.(*ssa.If); ok {
+							okIf = iff
+						}
+					}
+				}
+			}
+			if okIf == nil {
+				return
+			}
+			n++
+			key := fname(fn) + "|table " + g.Name()
+			// (b) no strictness test in the region
+			strictAt := ""
+			for _, b := range fn.Blocks {
+				if !edgeDominates(okIf.Block(), 0, b) || len(b.Instrs) == 0 {
+					continue
+				}
+				if iff, ok := b.Instrs[len(b.Instrs)-1].(*ssa.If); ok {
+					cond, _ := unNot(iff.Cond, true)
+					if fld, _ := fieldOf(cond); fld != nil && fld.Name() == "strict" {
+						strictAt = p.instrPos(iff)
+					}
+					// a short-circuit `c.strict && ...` arrives as a phi
+					if phi, ok := cond.(*ssa.Phi); ok {
+						for _, e := range phi.Edges {
+							if fld, _ := fieldOf(e); fld != nil && fld.Name() == "strict" {
+								strictAt = p.instrPos(iff)
+							}
+						}
+					}
+				}
+				if b != okIf.Block() {
+					for _, pd := range b.Preds {
+						if iff, ok := pd.Instrs[len(pd.Instrs)-1].(*ssa.If); ok && edgeDominates(okIf.Block(), 0, pd) {
+							cond, _ := unNot(iff.Cond, true)
+							if fld, _ := fieldOf(cond); fld != nil && fld.Name() == "strict" {
+								strictAt = p.instrPos(iff)
+							}
+						}
+					}
+				}
+			}
+			if strictAt != "" {
+				c.bad(key+" use", p.instrPos(lk), fmt.Sprintf("the pattern filters consult the strict flag at %s: a pattern is not a value, so whether it `is declared` must not decide between an answer and an error (a literal pattern that matches nothing selects no row on string columns and derived enums)", strictAt))
+			} else {
+				c.ok(key+" use", p.instrPos(lk), "the pattern filters are applied without a strictness test")
+			}
+			// (a) every function filed in the table is a pattern filter
+			if init := g.Pkg.Func("init"); init != nil {
+				eachInstr(init, func(i2 ssa.Instruction) {
+					mu, ok := i2.(*ssa.MapUpdate)
+					if !ok {
+						return
+					}
+					// the map value being filled is the one stored into g
+					stored := false
+					for _, r := range *mu.Map.Referrers() {
+						if st, ok := r.(*ssa.Store); ok && st.Addr == ssa.Value(g) {
+							stored = true
+						}
+					}
+					if !stored {
+						return
+					}
+					name, _ := constString(mu.Key)
+					v := mu.Value
+					if ct, ok := v.(*ssa.ChangeType); ok {
+						v = ct.X
+					}
+					f, _ := v.(*ssa.Function)
+					ekey := fmt.Sprintf("%s|table %s[%q]", fname(fn), g.Name(), name)
+					if f != nil && reaches(f, 0) {
+						c.ok(ekey, p.instrPos(mu), "a pattern filter: its answer comes from the matcher constructor")
+					} else {
+						c.bad(ekey, p.instrPos(mu), fmt.Sprintf("the function filed under %q among the pattern filters never reaches the matcher constructor: it compares values, and on this path an undeclared value of a strict enum is not rejected", name))
+					}
+				})
+			}
+		})
+	}
+	if n == 0 {
+		c.undecided("internal/ecolumn|pattern filter table", "-", "no lookup of a (string, values) -> (set, error) table found")
+	}
+}
+
+// ---------- R147 ----------
+
+func init() {
+	register(&Rule{ID: "R147", Name: "ENUM-CODES-WRITTEN", Floor: 1,
+		Text: "in internal/ecolumn a code array allocated with a length (make([]enumVal, n), n not the constant 0) is written completely before the function reports success: a loop over the whole array (a range over it or over a slice of the same length, or a count up to n) stores into the element of its key on every path through an iteration, and that loop is passed on every path to a successful return. The zero value of a code is not `no value` but the first value of the table, so an element left as allocated reads as that value (a constant column of the second declared value came out as the first)",
+		Run:  runR147})
+}
+
+func runR147(c *Ctx) {
+	p := c.P
+	isEnumValSlice := func(t types.Type) bool {
+		sl, ok := t.Underlying().(*types.Slice)
+		if !ok {
+			return false
+		}
+		n, ok := sl.Elem().(*types.Named)
+		return ok && n.Obj().Name() == "enumVal" && n.Obj().Pkg() != nil && n.Obj().Pkg().Path() == rel("internal/ecolumn")
+	}
+	for _, fn := range p.FuncsIn("internal/ecolumn") {
+		fnm := fname(fn)
+		loops := loopsOf(fn)
+		eachInstr(fn, func(in ssa.Instruction) {
+			mk, ok := in.(*ssa.MakeSlice)
+			if !ok || !isEnumValSlice(mk.Type()) {
+				return
+			}
+			if k, isK := constInt(mk.Len); isK && k == 0 {
+				return
+			}
+			key := fnm + "|make([]enumVal, n)"
+			// the slice as a value: itself, or loads of the local it was stored in
+			isSlice := func(v ssa.Value) bool {
+				v = stripSliceOpsKeepLen(v)
+				if v == ssa.Value(mk) {
+					return true
+				}
+				if ld, ok := v.(*ssa.UnOp); ok && ld.Op == token.MUL {
+					if al, ok := ld.X.(*ssa.Alloc); ok && singleDef(al) == ssa.Value(mk) {
+						return true
+					}
+				}
+				return false
+			}
+			sameLen := func(base ssa.Value) bool {
+				if isSlice(base) {
+					return true
+				}
+				if lc, ok := stripConvInt(mk.Len).(*ssa.Call); ok && builtinName(lc) == "len" {
+					a := lc.Call.Args[0]
+					return a == base || accessPath(a) != "" && accessPath(a) == accessPath(base)
+				}
+				return false
+			}
+			var fill *loopInfo
+			for i := range loops {
+				li := &loops[i]
+				if li.base == nil || li.key == nil || !sameLen(li.base) {
+					continue
+				}
+				// every path through an iteration stores into slice[key]
+				stores := func(b *ssa.BasicBlock) bool {
+					for _, i2 := range b.Instrs {
+						st, ok := i2.(*ssa.Store)
+						if !ok {
+							continue
+						}
+						ia, ok := st.Addr.(*ssa.IndexAddr)
+						if ok && isSlice(ia.X) && (stripConvInt(ia.Index) == li.key || rangeKeyOf(stripConvInt(ia.Index), li.base)) {
+							return true
+						}
+					}
+					return false
+				}
+				complete := true
+				for _, s := range li.header.Succs {
+					if !inLoop(*li, s) {
+						continue
+					}
+					for _, rb := range reachableAvoiding(s, stores) {
+						if rb == li.header {
+							complete = false
+						}
+					}
+				}
+				if complete {
+					fill = li
+				}
+			}
+			// a bulk copy into the slice counts as well
+			copied := false
+			eachInstr(fn, func(i2 ssa.Instruction) {
+				if cp, ok := i2.(*ssa.Call); ok && builtinName(cp) == "copy" && isSlice(cp.Call.Args[0]) {
+					copied = true
+				}
+			})
+			switch {
+			case fill == nil && !copied:
+				c.bad(key, p.instrPos(mk), "the code array is allocated with a length but no loop over all of it stores an element on every path of an iteration: what is not stored stays code 0, the first value of the table, instead of the value (or null) the row should hold")
+			case fill != nil:
+				// the loop is not optional: it is passed on the way to every successful return
+				skipped := ""
+				avoid := func(b *ssa.BasicBlock) bool { return b == fill.header }
+				for _, rb := range append([]*ssa.BasicBlock{mk.Block()}, reachableAvoiding(mk.Block(), avoid)...) {
+					if rb == fill.header || len(rb.Instrs) == 0 {
+						continue
+					}
+					if ret, ok := rb.Instrs[len(rb.Instrs)-1].(*ssa.Return); ok && (errResultIndex(fn.Signature) < 0 || mayReportSuccess(ret)) && !fill.header.Dominates(rb) {
+						skipped = p.instrPos(ret)
+					}
+				}
+				if skipped != "" {
+					c.bad(key, p.instrPos(mk), fmt.Sprintf("the loop that fills the code array can be skipped on the way to the return at %s: on that path every cell keeps code 0, the first value of the table", skipped))
+				} else {
+					c.ok(key, p.instrPos(mk), "every element is stored by a loop that lies on every path to a successful return")
+				}
+			default:
+				c.ok(key, p.instrPos(mk), "filled by copy")
+			}
+		})
+	}
+	c.okTrivial("scan", "-", "code arrays allocated with a length are filled")
+}
